@@ -106,8 +106,9 @@ def standard_run(out, pid, profiles, monitor_names, nontrivial, rule, modes=None
     rnd = random.Random(out.seed + sum(map(ord, pid)))
     model = Model()
     corr = Corr(out, model, rnd)
-    out.coverage["source_pin"] = common.source_hash(PINS)
+    common.pins_changed(out, PINS)
     n = quick_n if out.tier == "quick" else thorough_n
+    n = int(n * out.boost)
     for prof, share in profiles:
         jobs = make_jobs(rnd, max(1, int(n * share)), prof, modes=modes)
         if extra_jobs:
